@@ -149,6 +149,18 @@ func destPolicyFails(name string, d destination.Destination) []Fail {
 	return nil
 }
 
+// verifyOKNoPanic runs a verification of a value that was returned together with an error; a panic is the C20
+// violation "method panics on a failed-parse value" (it must not take the whole operation down with it).
+func verifyOKNoPanic(typ string, f func() bool, fails *[]Fail) (ok bool) {
+	defer func() {
+		if r := recover(); r != nil {
+			*fails = append(*fails, fail("C20", "method-panic:"+typ+".Verify", "%s: verification of the value returned with an error panics: %v", typ, r))
+			ok = false
+		}
+	}()
+	return f()
+}
+
 // scribble runs obs() before and after complementing every byte of buf.
 func scribble(name string, buf []byte, obs func() string) []Fail {
 	before := obs()
@@ -337,7 +349,8 @@ func init() {
 		v, rem, err := lease_set2.ReadLeaseSet2(w)
 		if err != nil {
 			fails = append(fails, methodFails("C20", "LeaseSet2", &v)...)
-			if v.Verify() == nil {
+			fails = append(fails, destPolicyFails("ReadLeaseSet2 (value returned with an error)", v.Destination())...)
+			if verifyOKNoPanic("LeaseSet2", func() bool { return v.Verify() == nil }, &fails) {
 				fails = append(fails, fail("C20", "verify-on-failed-parse:LeaseSet2", "Verify() succeeds on the value returned with an error"))
 			}
 			return "err", fails
@@ -386,7 +399,8 @@ func init() {
 		v, rem, err := meta_leaseset.ReadMetaLeaseSet(w)
 		if err != nil {
 			fails = append(fails, methodFails("C20", "MetaLeaseSet", &v)...)
-			if v.Verify() == nil {
+			fails = append(fails, destPolicyFails("ReadMetaLeaseSet (value returned with an error)", v.Destination())...)
+			if verifyOKNoPanic("MetaLeaseSet", func() bool { return v.Verify() == nil }, &fails) {
 				fails = append(fails, fail("C20", "verify-on-failed-parse:MetaLeaseSet", "Verify() succeeds on the value returned with an error"))
 			}
 			return "err", fails
@@ -441,7 +455,7 @@ func init() {
 		v, rem, err := encrypted_leaseset.ReadEncryptedLeaseSet(w)
 		if err != nil {
 			fails = append(fails, methodFails("C20", "EncryptedLeaseSet", &v)...)
-			if v.Verify() == nil {
+			if verifyOKNoPanic("EncryptedLeaseSet", func() bool { return v.Verify() == nil }, &fails) {
 				fails = append(fails, fail("C20", "verify-on-failed-parse:EncryptedLeaseSet", "Verify() succeeds on the value returned with an error"))
 			}
 			return "err", fails
@@ -479,7 +493,8 @@ func init() {
 		v, err := lease_set.ReadLeaseSet(w)
 		if err != nil {
 			fails := methodFails("C20", "LeaseSet", &v)
-			if v.Verify() == nil {
+			fails = append(fails, destPolicyFails("ReadLeaseSet (value returned with an error)", v.Destination())...)
+			if verifyOKNoPanic("LeaseSet", func() bool { return v.Verify() == nil }, &fails) {
 				fails = append(fails, fail("C20", "verify-on-failed-parse:LeaseSet", "Verify() succeeds on the value returned with an error"))
 			}
 			return "err", fails
@@ -550,7 +565,12 @@ func init() {
 		v, rem, err := router_info.ReadRouterInfo(w)
 		if err != nil {
 			fails = append(fails, methodFails("C20", "RouterInfo", &v)...)
-			if ok, _ := v.VerifySignature(); ok {
+			if ri := v.RouterIdentity(); ri != nil && ri.KeysAndCert != nil && ri.KeyCertificate != nil {
+				if s, c := ri.KeyCertificate.SigningPublicKeyType(), ri.KeyCertificate.PublicKeyType(); !ridAllowedSpec(s, c) {
+					fails = append(fails, fail("C09", "policy:ReadRouterInfo (value returned with an error)", "the RouterInfo returned with an error hands out a RouterIdentity with prohibited types (%d,%d)", s, c))
+				}
+			}
+			if verifyOKNoPanic("RouterInfo", func() bool { ok, _ := v.VerifySignature(); return ok }, &fails) {
 				fails = append(fails, fail("C20", "verify-on-failed-parse:RouterInfo", "VerifySignature() succeeds on the value returned with an error"))
 			}
 			return "err", fails
